@@ -88,8 +88,9 @@ enum Op {
     Jump(usize),
     JumpIfFalse(Expr, usize),
     Tunnel(String, Vec<Expr>),
-    Thread(String),
+    Thread(String, Vec<Expr>),
     TunnelReturn,
+    TunnelOnwards(String, Vec<Expr>),
     Done,
     End,
     Return(Option<Expr>),
@@ -246,8 +247,9 @@ impl Lower {
             }
             Stmt::Divert(t, args) => self.ops.push(Op::Divert(t.clone(), args.clone())),
             Stmt::Tunnel(t, args) => self.ops.push(Op::Tunnel(t.clone(), args.clone())),
-            Stmt::Thread(t) => self.ops.push(Op::Thread(t.clone())),
+            Stmt::Thread(t, a) => self.ops.push(Op::Thread(t.clone(), a.clone())),
             Stmt::TunnelReturn => self.ops.push(Op::TunnelReturn),
+            Stmt::TunnelOnwards(t, a) => self.ops.push(Op::TunnelOnwards(t.clone(), a.clone())),
             Stmt::Done => self.ops.push(Op::Done),
             Stmt::End => self.ops.push(Op::End),
             Stmt::Return(e) => self.ops.push(Op::Return(e.clone())),
@@ -328,7 +330,7 @@ impl Lower {
         let ends_in_divert = matches!(b.stmts.last(), Some(Stmt::Line(l)) if l.divert.is_some())
             || matches!(
                 b.stmts.last(),
-                Some(Stmt::Divert(..) | Stmt::End | Stmt::Done | Stmt::TunnelReturn | Stmt::Return(_))
+                Some(Stmt::Divert(..) | Stmt::End | Stmt::Done | Stmt::TunnelReturn | Stmt::TunnelOnwards(..) | Stmt::Return(_))
             );
         match &b.group {
             None => {
@@ -1425,12 +1427,21 @@ impl<'a> Machine<'a> {
                 self.thread().frames.push(Frame { kind: FrameKind::Tunnel, pos: t, temps, fn_start: None });
                 self.count_jump(Some(pos), t);
             }
-            Op::Thread(target) => {
+            Op::Thread(target, args) => {
                 self.events.insert("thread");
                 let t = self.entry_of(&target)?;
+                // arguments are evaluated by the thread that forks; the parameters are
+                // temporaries of the forked copy only
+                let temps = self.bind_params(&target, &args)?;
+                if !temps.is_empty() {
+                    self.events.insert("thread_args");
+                }
                 self.set_pos(pos + 1);
                 let mut fork = self.threads.last().unwrap().clone();
                 fork.frames.last_mut().unwrap().pos = t;
+                for (k, v) in temps {
+                    fork.frames.last_mut().unwrap().temps.insert(k, v);
+                }
                 self.threads.push(fork);
                 self.count_jump(Some(pos), t);
             }
@@ -1440,6 +1451,23 @@ impl<'a> Machine<'a> {
                     return Err("found ->-> but there is no tunnel to return from".into());
                 }
                 self.thread().frames.pop();
+            }
+            Op::TunnelOnwards(target, args) => {
+                // the arguments are evaluated inside the tunnel, then the tunnel's frame goes
+                // and the flow continues at the target as after a plain divert
+                self.events.insert("tunnel_onwards");
+                let top = self.threads.last().unwrap().frames.last().unwrap().kind.clone();
+                if top != FrameKind::Tunnel {
+                    return Err("found ->-> but there is no tunnel to return from".into());
+                }
+                let t = self.entry_of(&target)?;
+                let temps = self.bind_params(&target, &args)?;
+                self.thread().frames.pop();
+                for (k, v) in temps {
+                    self.frame().temps.insert(k, v);
+                }
+                self.set_pos(t);
+                self.count_jump(Some(pos), t);
             }
             Op::Done => {
                 if self.threads.len() > 1 {
